@@ -187,6 +187,20 @@ theorem processPegging_grow (s s' : State) (h : processPegging s = .ok s') : Poo
     obtain ⟨sm2, _, h⟩ := Outcome.bind_eq_ok h
     cases h; exact PoolsGrow.of_set _ _ rfl
 
+theorem fixBuiltin_get_isSome (m : AList PoolKey PoolState) (k k' : PoolKey) (h : (m.get k').isSome) :
+    ((fixBuiltin m k).get k').isSome := by
+  by_cases hkk : k' = k
+  · subst hkk; rw [get_fixBuiltin_self]; rfl
+  · rw [get_fixBuiltin_ne _ hkk]; exact h
+
+/-- `create_builtins` keeps the pools that exist -/
+theorem createBuiltins_grow (s : State) : PoolsGrow s (createBuiltins s) := by
+  intro k hk
+  rw [createBuiltins_pools]
+  split
+  · exact fixBuiltin_get_isSome _ _ _ (fixBuiltin_get_isSome _ _ _ (fixBuiltin_get_isSome _ _ _ hk))
+  · exact fixBuiltin_get_isSome _ _ _ (fixBuiltin_get_isSome _ _ _ hk)
+
 /-- every Melmint phase after `create_builtins` keeps the pools that exist -/
 theorem presealMelmint_grow (env : Env) (s s' : State) (h : presealMelmint env s = .ok s') :
     PoolsGrow (createBuiltins s) s' := by
@@ -198,7 +212,7 @@ theorem presealMelmint_grow (env : Env) (s s' : State) (h : presealMelmint env s
     obtain ⟨s2, h2, h⟩ := Outcome.bind_eq_ok h
     obtain ⟨s3, h3, h⟩ := Outcome.bind_eq_ok h
     exact (((processSwaps_grow _ _ h1).trans (processDeposits_grow _ _ _ h2)).trans
-      (processWithdrawals_grow _ _ _ h3)).trans (processPegging_grow _ _ h)
+      (processWithdrawals_grow _ _ _ h3)).trans ((createBuiltins_grow s3).trans (processPegging_grow _ _ h))
 
 theorem applyTip909_grow (s s' : State) (h : applyTip909 s = .ok s') : PoolsGrow s s' := by
   unfold applyTip909 at h
